@@ -257,7 +257,7 @@ func runGraph(pa *pipApp, rng *RNG, epoch string, tops []*gTask) (ob c14obs) {
 		pa.log.release(g)
 	}
 	<-done
-	e, p, h := guarded(8*time.Second, mgr.Wait)
+	e, p, h := guarded(2*time.Second, mgr.Wait)
 	switch {
 	case h:
 		ob.Mgr = "hang"
@@ -268,12 +268,19 @@ func runGraph(pa *pipApp, rng *RNG, epoch string, tops []*gTask) (ob c14obs) {
 	default:
 		ob.Mgr = "ok"
 	}
-	ob.Names = mgr.Names()
 	ob.Errors = map[string]bool{}
-	for _, n := range ob.Names {
-		if t, ok := mgr.Get(n); ok {
-			ob.Errors[n] = len(t.Errors()) != 0
-		}
+	if !h { // a hanging Wait keeps the manager's read lock: Names() would block behind it
+		guarded(3*time.Second, func() error {
+			names := mgr.Names()
+			errs := map[string]bool{}
+			for _, n := range names {
+				if t, ok := mgr.Get(n); ok {
+					errs[n] = len(t.Errors()) != 0
+				}
+			}
+			ob.Names, ob.Errors = names, errs
+			return nil
+		})
 	}
 	ob.Events, ob.MaxIn, ob.GateHang = pa.log.snapshot()
 	if !h {
@@ -586,6 +593,9 @@ func runC14(o *Out, rng *RNG, tier string, replay string) {
 		// distribution
 		o.Stat("graphs")
 		o.Stat("mgr_" + ob.Mgr)
+		if o.Stats["mgr_hang"] >= 3 {
+			break // a hanging TasksManager.Wait is a definite failure; do not wait for more of them
+		}
 		if ob.MaxIn >= 2 {
 			o.Stat("graphs_with_overlapping_commands")
 		}
